@@ -70,7 +70,10 @@ def tables_rule(chk, prog):
                 if bt["args"] and describe(prog, pb, bt["args"][0]) == d and bt.get("dest") is not None:
                     cands.append(("field", describe(prog, pb, bt["dest"]["l"]), 0))
         chk.floor("characters read in parse_string", len(cands), 1)
-        pushes = [(blk, t) for blk, t in pb.calls_to(r"string::String::push$")]
+        # (only writes to the string that becomes the value: a helper may collect hex digits in a scratch String)
+        outs = [byteset.strip_conv(describe(prog, pb, s_["rv"]["ops"][0])) for blk_ in pb.blocks for s_ in blk_["stmts"]
+                if s_.get("rv") and s_["rv"].get("k") == "agg" and s_["rv"].get("adt", "").endswith("value::Value") and s_["rv"].get("variant") == "String"]
+        pushes = [(blk, t) for blk, t in pb.calls_to(r"string::String::push$") if not outs or byteset.strip_conv(describe(prog, pb, t["args"][0])) in outs]
         chk.floor("String::push sites in parse_string", len(pushes), 2)
         n_verbatim = 0
         for var in cands:
